@@ -23,3 +23,16 @@ uint8_t vfr_state(opensmt::FastRational *x);
 void vfr_make_int(opensmt::FastRational *x, uint64_t v);   // canonical integer value (word form iff it fits)
 }
 #define ALLKINDS ((uint8_t)7)
+extern "C" {
+uint8_t vfr_is_neg_of(opensmt::FastRational *r, uint8_t s);
+uint8_t vfr_is_inverse_of(opensmt::FastRational *r, uint8_t s);
+uint8_t vfr_is_num_of(opensmt::FastRational *r, uint8_t s);
+uint8_t vfr_is_den_of(opensmt::FastRational *r, uint8_t s);
+uint8_t vfr_slot_sign(uint8_t s);                    // 0 zero, 1 positive, 2 negative
+uint8_t vfr_slots_equal(uint8_t sa, uint8_t sb);
+uint8_t vfr_slot_divides(uint8_t sd, uint8_t sn);
+uint8_t vfr_is_exact_quotient(opensmt::FastRational *r, uint8_t sn, uint8_t sd);
+uint8_t vfr_is_canonical_of_raw(opensmt::FastRational *r, uint32_t n, uint32_t d);
+void vfr_make_integer(opensmt::FastRational *x, uint8_t kinds);
+uint8_t vfr_is_uint(opensmt::FastRational *r, uint32_t v);
+}
